@@ -48,3 +48,17 @@ package verifspec
 //@   ensures ok ==> forall(k, 0, len(n.Name) - len(method) - 1, n.Name[k] != 46)
 //@   ensures ok && !(len(n.Name) - len(method) - 1 > 2 && n.Name[0] == 40 && n.Name[len(n.Name) - len(method) - 2] == 41) ==> len(recv) == len(n.Name) - len(method) - 1 && forall(k, 0, len(recv), recv[k] == n.Name[k])
 //@   ensures ok && len(n.Name) - len(method) - 1 > 2 && n.Name[0] == 40 && n.Name[len(n.Name) - len(method) - 2] == 41 ==> len(recv) == len(n.Name) - len(method) - 3 && forall(k, 0, len(recv), recv[k] == n.Name[k + 1])
+
+// GoLinknameSet: after Add(es) without error every directive is found again from its reference and its implementation
+// is known as one; a second directive for the same reference is refused.
+//@ func compiler/linkname.GoLinknameSet.IsImplementation
+//@ property C10 C05
+//@   ensures result == has(gls.byImplementation, sym)
+//@ func compiler/linkname.GoLinknameSet.FindImplementation
+//@ property C10
+//@   results impl found
+//@   ensures found == has(gls.byReference, sym)
+//@   ensures found ==> impl.PkgPath == gls.byReference[sym].Implementation.PkgPath && impl.Name == gls.byReference[sym].Implementation.Name
+
+// (GoLinknameSet.Add is not under contract: its quantified postcondition over maps keyed by structs did not discharge
+// reliably -- unknown on 2 of 12 paths -- and is therefore not claimed.)
